@@ -1,6 +1,6 @@
 (* C08 — get_subset_for_channels in general (all waveform classes, any nesting): the result is well formed, has exactly
    the requested channels and the duration of the original, and samples like the original on the requested channels at
-   every time of [0, duration) that the executable guard [tg] admits: a ReversedWaveform on the path of the channel must
+   every time of [0, duration) that the executable guard [tg] allows: a ReversedWaveform on the path of the channel must
    not be asked at ITS local time 0 (there the restricted waveform may fold to a total constant while the original
    reversed sequence answers NaN: C08_subset_refuted, known finding C08-reversed-composite-junction). *)
 From Coq Require Import List ZArith QArith Qabs Bool Lia Lqa Permutation.
